@@ -37,7 +37,18 @@ Record ccase := mkCC {
   c_end : cend
 }.
 
-Inductive case := CaseF (c : fcase) | CaseC (c : ccase).
+(* a sweep: many independent single-batch runs (single-column keys, all values 1)
+   against fresh frames of the same shape, in a compact notation: the sequence of
+   keys fed as one batch, the table afterwards (slot keys, slot values, hits, len,
+   cap), and the rows Compact then returned (keys, values) *)
+Inductive xentry :=
+| XE (seq sk sv hits : list Z) (len cap : Z) (ok ov : list Z)
+| XBad (seq : list Z).                 (* the implementation panicked or hung on this sequence *)
+Record xcase := mkXC {
+  x_hash : list (list Z * N); x_init : nat; x_scratch : nat; x_entries : list xentry
+}.
+
+Inductive case := CaseF (c : fcase) | CaseC (c : ccase) | CaseX (c : xcase).
 
 (* short constructors used by the harness to keep case files small *)
 Definition r1 (k v : Z) : row := ([k], v).
@@ -132,8 +143,30 @@ Definition ccase_exact (c : ccase) : bool :=
   | _ => negb (c_made c) && match c_steps c with [] => true | _ => false end
   end.
 
+Definition zip1 (ks vs : list Z) : list row := map (fun p => ([fst p], snd p)) (combine ks vs).
+
+Definition xentry_exact (h : list Z -> N) (init scratch : nat) (e : xentry) : bool :=
+  match e with
+  | XBad _ => false
+  | XE seq sk sv hits len cap ok ov =>
+      match make_combining_frame 1 init scratch with
+      | Ok t =>
+          match Combine h Z.add t (ones seq) with
+          | Ok t' =>
+              Nat.eqb (length sk) (length sv) && Nat.eqb (length ok) (length ov)
+              && dump_eqb (dump_of t') (mkDump (zip1 sk sv) hits len cap)
+              && (let '(rows, _, _) := compact t' in rows_eqb rows (zip1 ok ov))
+          | _ => false
+          end
+      | _ => false
+      end
+  end.
+
+Definition xcase_exact (c : xcase) : bool :=
+  forallb (xentry_exact (hash_of (x_hash c)) (x_init c) (x_scratch c)) (x_entries c).
+
 Definition case_exact (c : case) : bool :=
-  match c with CaseF f => fcase_exact f | CaseC m => ccase_exact m end.
+  match c with CaseF f => fcase_exact f | CaseC m => ccase_exact m | CaseX x => xcase_exact x end.
 
 (* ================= property-level judgement, on the OBSERVED output only ================= *)
 
@@ -148,7 +181,8 @@ Fixpoint fjudge (fed : list row) (steps : list (fop * fobs)) : bool :=
   end.
 
 Definition fcase_ok (c : fcase) : bool :=
-  if f_made c then fjudge [] (f_steps c)
+  if Nat.eqb (f_scratch c) 0 then true   (* no scratch space: not a configuration the property speaks about *)
+  else if f_made c then fjudge [] (f_steps c)
   else negb (is_pow2 (f_init c)).        (* a refusal is legitimate only for a bad capacity *)
 
 Fixpoint csteps_ok (steps : list (list row * cstep)) : bool :=
@@ -168,8 +202,18 @@ Definition ccase_ok (c : ccase) : bool :=
     end
   else negb (is_pow2 (c_init c)).
 
+Definition xentry_ok (e : xentry) : bool :=
+  match e with
+  | XBad _ => false
+  | XE seq _ _ _ _ _ ok ov => Nat.eqb (length ok) (length ov) && set_ok Z.add (ones seq) (zip1 ok ov)
+  end.
+
 Definition case_ok (c : case) : bool :=
-  match c with CaseF f => fcase_ok f | CaseC m => ccase_ok m end.
+  match c with
+  | CaseF f => fcase_ok f
+  | CaseC m => ccase_ok m
+  | CaseX x => forallb xentry_ok (x_entries x)
+  end.
 
 Definition mismatches (cs : list case) : list nat := bad_indices case_exact cs.
 Definition violations (cs : list case) : list nat := bad_indices case_ok cs.
